@@ -47,6 +47,7 @@ Inductive expr :=
 | XInstanceof (a b : expr)
 | XIn (p : str) (o : expr)
 | XLog (e : expr)                            (* host call *)
+| XEval (direct : bool) (body : list stmt)   (* eval("<body>"): direct (10.4.2, the caller's context) or indirect (global code) *)
 with stmt :=
 | JExpr (e : expr)
 | JVar (x : str) (init : option expr)
@@ -392,7 +393,8 @@ Definition fill (c : compl) (V : option val) : compl :=
 Definition updv (V : option val) (c : compl) : option val :=
   match cval c with Some v => Some v | None => V end.
 
-Record ctx := mkctx { c_env : nat; c_this : val }.
+(* execution context (10.3): lexical environment, variable environment, this *)
+Record ctx := mkctx { c_env : nat; c_venv : nat; c_this : val }.
 
 (* hoisting: var names and function declarations of a function body / program
    (not descending into nested functions) *)
@@ -707,6 +709,16 @@ Definition step (t : task) (s : state) : R :=
           | _ => type_error s1
           end)
     | XLog e1 => bindv (self (TExpr c e1) s) (fun s1 v => okv (emit s1 v) WUndef)
+    | XEval direct body =>
+        (* 15.1.2.1 + 10.4.2 + 10.5 (eval code: declarations go to the variable environment, configurable) *)
+        let c' := if direct then c else mkctx 0%nat 0%nat (WRef 0) in
+        let ds := hoist body in
+        let s1 := inst_vars (inst_decls s (c_venv c') ds) (c_venv c') ds in
+        match self (TList c' body) s1 with
+        | Ok s2 (ACompl (QNormal v)) => okv s2 (match v with Some v => v | None => WUndef end)
+        | Ok _ _ => Decline          (* return/break/continue cannot leave eval code *)
+        | r => r
+        end
     end
   | TArgs c l =>
     match l with
@@ -732,7 +744,7 @@ Definition step (t : task) (s : state) : R :=
                       | None => declare_var s3 ne s_arguments (Some (WRef al))
                       end in
             let s5 := inst_vars s4 ne ds in
-            match self (TList (mkctx ne (to_this this)) body) s5 with
+            match self (TList (mkctx ne ne (to_this this)) body) s5 with
             | Ok s6 (ACompl (QReturn v)) => okv s6 v
             | Ok s6 (ACompl (QNormal _)) => okv s6 WUndef
             | Ok _ _ => Decline          (* break/continue cannot leave a function *)
@@ -841,7 +853,7 @@ Definition step (t : task) (s : state) : R :=
                   | Exn s1 v, Some (x, cl) =>
                       (* 12.14: a new declarative environment binding the exception *)
                       let '(s2, ne) := new_env s1 (mkenv [(x, v)] (Some (c_env c)) None) in
-                      self (TList (mkctx ne (c_this c)) cl) s2
+                      self (TList (mkctx ne (c_venv c) (c_this c)) cl) s2
                   | _, _ => r1
                   end in
         match fb with
@@ -859,7 +871,7 @@ Definition step (t : task) (s : state) : R :=
           match vo with
           | WRef l =>
               let '(s2, ne) := new_env s1 (mkenv [] (Some (c_env c)) (Some l)) in
-              self (TStmt (mkctx ne (c_this c)) [] body) s2
+              self (TStmt (mkctx ne (c_venv c) (c_this c)) [] body) s2
           | WUndef | WNull => type_error s1
           | _ => Decline
           end)
@@ -960,7 +972,7 @@ Definition has_jump_top (p : list stmt) : bool := existsb jumps_stmt p.
 Definition run_program_cv (fuel : nat) (p : list stmt) : list val * outcome * val :=
   let ds := hoist p in
   let s0 := inst_vars (inst_decls init_state 0%nat ds) 0%nat ds in
-  match run fuel (TList (mkctx 0%nat (WRef 0)) p) s0 with
+  match run fuel (TList (mkctx 0%nat 0%nat (WRef 0)) p) s0 with
   | Ok s (ACompl (QNormal v)) => (out s, FNormal, match v with Some v => v | None => WUndef end)
   | Ok s _ => (out s, FDeclined, WUndef)
   | Exn s v => (out s, FThrew v, WUndef)
